@@ -8,11 +8,33 @@
   the callee relation, contains the roots and that none of its members assigns a package-level
   variable; `Facts.not_writes_of_cert` lifts this to everything reachable.  (The
   receiver-immutability clause of C17 is checked dynamically by the harness.)
+
+  `Map.Copy` is `Json()` followed by `NewMapJson`: `copy` below composes the two models, and
+  `C17_copy_equal` says that the result is the original Map (as a value: entry order aside) for
+  every JSON-shaped Map.  Values are immutable in the model, so "shares no mutable structure"
+  has no counterpart here; the harness scribbles over the copy instead.
 -/
 import Mxj.Lemmas.Facts
 import Mxj.Generated.Facts
+import Mxj.Lemmas.Json
 namespace Mxj.C17
 open Mxj
+
+/-- `mv.Copy()`: encode as JSON, decode again (mxj.go) -/
+def copy (m : Entries) : Option Val := Json.newMapJson (Json.mapJson false (.map m))
+
+/-- Copy returns a Map equal to the original, for every Map in the JSON domain -/
+theorem C17_copy_equal (m : Entries) (hm : Json.JsonShaped (.map m) = true) :
+    ∃ r, copy m = some r ∧ r ≈ᵥ .map m :=
+  ⟨_, Json.newMapJson_mapJson false m hm, Json.norm_idem (.map m) hm⟩
+
+/-- … and copying is idempotent: a copy of the copy is the copy -/
+theorem C17_copy_exact (m : Entries) (hm : Json.JsonShaped (.map m) = true) :
+    copy m = some (Val.norm (.map m)) := Json.newMapJson_mapJson false m hm
+
+example : ∃ r, copy [(['b'], .str ['}']), (['a'], .list [.bool true, .map []])] = some r ∧
+    r ≈ᵥ .map [(['b'], .str ['}']), (['a'], .list [.bool true, .map []])] :=
+  C17_copy_equal _ (by decide)
 
 /-- the certificate itself: closed under static calls … -/
 theorem C17_query_closure_closed : Facts.closed Generated.queryRootsClosure = true := by decide
